@@ -36,6 +36,7 @@ import (
 	"github.com/ava-labs/hypersdk/codec"
 	"github.com/ava-labs/hypersdk/fees"
 	"github.com/ava-labs/hypersdk/genesis"
+	"github.com/ava-labs/hypersdk/internal/validitywindow"
 	"github.com/ava-labs/hypersdk/internal/validitywindow/validitywindowtest"
 	"github.com/ava-labs/hypersdk/internal/workers"
 	"github.com/ava-labs/hypersdk/keys"
@@ -105,9 +106,9 @@ func (a *VerifAction) StateKeys(codec.Address, ids.ID) state.Keys {
 func (a *VerifAction) chunksOf(name string, w *world) uint16 { return w.chunks[name] }
 
 func (a *VerifAction) Execute(ctx context.Context, _ chain.Rules, mu state.Mutable, _ int64, _ codec.Address, _ ids.ID) ([]byte, error) {
-	if a.sched != nil {
-		a.sched.enter(a.label)
-		defer a.sched.leave(a.label)
+	if s, label := a.sched, a.label; s != nil { // read once: a later run of the same block re-arms the action
+		s.enter(label)
+		defer s.leave(label)
 	}
 	reads := []string{}
 	for _, op := range a.Ops {
@@ -518,9 +519,15 @@ func errClass(err error) string {
 		return "invalid-key"
 	case errors.Is(err, errInjectedRead):
 		return "read-error"
+	case errors.Is(err, validitywindow.ErrMisalignedTime):
+		return "expiry-misaligned"
+	case errors.Is(err, validitywindow.ErrTimestampExpired):
+		return "expired"
+	case errors.Is(err, validitywindow.ErrFutureTimestamp):
+		return "expiry-future"
 	default:
 		s := err.Error()
-		for _, p := range []struct{ sub, cls string }{{"misaligned", "expiry-misaligned"}, {"expired", "expired"}, {"future", "expiry-future"}, {"overflow", "overflow"}} {
+		for _, p := range []struct{ sub, cls string }{{"overflow", "overflow"}} {
 			if containsFold(s, p.sub) {
 				return p.cls
 			}
